@@ -338,7 +338,8 @@ func RegexpQuery(text string, content, file bool) (Q, error) {
 		return nil, err
 	}
 
-	if r.Op == syntax.OpLiteral {
+	// A literal that folds case ((?i)foo, [Ff]) is not a plain substring.
+	if r.Op == syntax.OpLiteral && r.Flags&syntax.FoldCase == 0 {
 		expr = &Substring{
 			Pattern:  string(r.Rune),
 			FileName: file,
